@@ -977,6 +977,12 @@ func (x *Exec) Lookup(kind string, name int) {
 			txn, ok := x.N.CM.V2PoolTransaction(id)
 			if ok {
 				if txn.ID() == id {
+					// the returned transaction is the caller's: mutating it must not reach the pool
+					orig := v2Bytes(txn)
+					scramble(&txn)
+					if again, ok2 := x.N.CM.V2PoolTransaction(id); !ok2 || !bytes.Equal(v2Bytes(again), orig) {
+						x.mismatch("audit:c14:alias:lookup-v2", "mutating the transaction returned by V2PoolTransaction(%d) changed the pooled transaction", name)
+					}
 					r, k = "found", name
 				} else {
 					r = "wrong"
@@ -1334,6 +1340,16 @@ func (x *Exec) TxSet(name, basis int) {
 				}
 				ms.ApplyV2Transaction(o)
 			}
+		}
+	}
+	if r == "ok" && len(out) > 1 {
+		// the parents are copies: mutating them must not reach the pool
+		poolBefore := x.N.CM.V2PoolTransactions()
+		for i := range out {
+			scramble(&out[i])
+		}
+		if !sameV2(poolBefore, x.N.CM.V2PoolTransactions()) {
+			x.mismatch("audit:c14:alias:txset-parents", "mutating the set returned by V2TransactionSet changed the pool")
 		}
 	}
 	if !bytes.Equal(v2Bytes(before), v2Bytes(txn)) {
